@@ -701,5 +701,71 @@ __CPROVER_requires(OBJ_OK(carg, struct rep0_ctx))
 __CPROVER_assigns(((rep0_ctx *) carg)->sqnode, ((rep0_ctx *) carg)->rqnode, ((rep0_ctx *) carg)->btrace_len, ((rep0_ctx *) carg)->sock, ((rep0_ctx *) carg)->pipe_id)
 __CPROVER_ensures(NODE_IDLE(&((rep0_ctx *) carg)->sqnode) && NODE_IDLE(&((rep0_ctx *) carg)->rqnode) && ((rep0_ctx *) carg)->btrace_len == 0 && ((rep0_ctx *) carg)->pipe_id == 0 && ((rep0_ctx *) carg)->sock == sarg)
 ;
+
+/* ---- two sends in a row without a receive in between (C04: "send before receive on REP ... fail with
+ * NNG_ESTATE"): vp_rep0_send_twice (harness.c) calls the REAL rep0_ctx_send twice; the contract is that of
+ * rep0_ctx_send for the first call (same case split: -DREP_HAS, -DREP_SQ) plus: on EVERY exit path of the
+ * first call (send before receive, requester gone, pipe idle, pipe busy and queued, pipe busy and refused by
+ * the aio layer) the second send is refused with NNG_ESTATE, never reaches a pipe, keeps its message, and
+ * does not disturb a first reply that is still queued. ---- */
+#ifdef XQ_TWICE
+#define SM2 (aio2->a_msg)
+static void vp_rep0_send_twice(void *arg, nni_aio *aio, nni_aio *aio2)
+__CPROVER_requires(REP_CTX_PRE && VP_NO_LOCK_HELD)
+__CPROVER_requires(__CPROVER_is_fresh(aio, sizeof(nni_aio)) && MSG_PRE(SM) && SM->m_refcnt.v == 1)
+__CPROVER_requires(__CPROVER_is_fresh(aio2, sizeof(nni_aio)) && MSG_PRE(SM2) && SM2->m_refcnt.v == 1)
+__CPROVER_requires(CH_GHOST_PRE(&SM2->m_body))
+__CPROVER_requires(CTX->btrace_len <= MSG_HDRCAP && CTX->saio == NULL && NODE_IDLE(&CTX->sqnode))
+__CPROVER_requires((g_hk < CTX->btrace_len) ==> g_hb == BT(CTX)[g_hk])
+__CPROVER_requires(g_idm_addr == &SOCK->pipes && g_idm_key == (uint64_t) CTX->pipe_id)
+#if REP_HAS == 0
+__CPROVER_requires(!g_rr.idm_has)
+#else
+__CPROVER_requires(g_rr.idm_has && OBJ_OK(g_rr.idm_val, struct rep0_pipe) && DISTINCT(g_rr.idm_val, g_sock) && DISTINCT(g_rr.idm_val, arg) && SPIPE->sendq.ll_offset == OFF_SQ &&
+#if REP_SQ == 0
+    LIST_IS_EMPTY(&SPIPE->sendq)
+#else
+    OBJ_OK(g_c2, struct rep0_ctx) && DISTINCT(g_c2, g_sock) && DISTINCT(g_c2, arg) && DISTINCT(g_c2, g_rr.idm_val) && LIST_IS_ONE(&SPIPE->sendq, &C2->sqnode)
+#endif
+    )
+#endif
+__CPROVER_requires(g_pollr_addr == &SOCK->readable && g_pollw_addr == &SOCK->writable)
+__CPROVER_assigns(aio->a_msg, aio->a_result, aio->a_count, aio2->a_msg, aio2->a_result, aio2->a_count, CTX->btrace_len, CTX->pipe_id, CTX->saio, CTX->spipe, CTX->sqnode, VP_PROTO_GHOST_LIST, VP_RR_GHOST_LIST, VP_REPX_GHOST_LIST, VP_SYNC_GHOSTS, g_free_calls)
+__CPROVER_assigns(*SM, *SM2)
+#if REP_HAS == 1
+__CPROVER_assigns(SPIPE->busy, SPIPE->aio_send.a_msg, SPIPE->sendq.ll_head)
+#if REP_SQ == 1
+__CPROVER_assigns(C2->sqnode)
+#endif
+#endif
+__CPROVER_frees(SM, SM->m_body.ch_buf)
+__CPROVER_ensures(VP_NO_LOCK_HELD && CTX->btrace_len == 0 && CTX->pipe_id == 0)
+/* the SECOND send: refused with NNG_ESTATE, exactly one completion, message still attached (the caller's), body untouched */
+__CPROVER_ensures(WA_ONCE(aio2, NNG_ESTATE, 0, OLD(SM2)) && g_fin_last == aio2 && g_fin_last_rv == NNG_ESTATE && aio2->a_msg == OLD(SM2))
+__CPROVER_ensures(aio2->a_msg->m_body.ch_len == OLD(SM2->m_body.ch_len) && ((g_k < OLD(SM2->m_body.ch_len)) ==> aio2->a_msg->m_body.ch_ptr[g_k] == g_b))
+__CPROVER_ensures(WA_NONE_IF(g_wa != (void *) aio && g_wa != (void *) aio2))
+/* the FIRST send, per exit path; the second never reaches a pipe and never consults the aio layer */
+__CPROVER_ensures(S_ESTATE ==> (WA_ONCE(aio, NNG_ESTATE, 0, OLD(SM)) && aio->a_msg == OLD(SM) && S_NOSEND && g_start_calls == OLD(g_start_calls) && g_free_calls == OLD(g_free_calls)))
+#if REP_HAS == 0
+__CPROVER_ensures(S_GONE ==> (WA_ONCE(aio, 0, OLD(SM->m_body.ch_len), NULL) && aio->a_msg == NULL && __CPROVER_was_freed(OLD(SM)) && S_NOSEND && g_start_calls == OLD(g_start_calls) && g_free_calls == OLD(g_free_calls) + 2))
+#else
+__CPROVER_ensures(S_NOW ==> (WA_ONCE(aio, 0, OLD(SM->m_body.ch_len), NULL) && aio->a_msg == NULL && g_pipe_send_calls == OLD(g_pipe_send_calls) + 1 && g_pipe_send_msg == OLD(SM) && g_pipe_send_aio == &SPIPE->aio_send
+    && g_start_calls == OLD(g_start_calls) && g_free_calls == OLD(g_free_calls) && CTX->saio == NULL))
+/* first reply queued behind a busy pipe: it stays queued, untouched, with the backtrace as header; only the second completes */
+__CPROVER_ensures((S_WAIT && g_aio_start_ok) ==> (WA_NONE_IF(g_wa == (void *) aio) && g_fin_calls == OLD(g_fin_calls) + 1 && CTX->saio == aio && CTX->spipe == SPIPE && aio->a_msg == OLD(SM) && OLD(SM)->m_header_len == S_OLDLEN
+    && S_NOSEND && g_start_calls == OLD(g_start_calls) + 1 && g_start_last == aio && g_free_calls == OLD(g_free_calls) &&
+#if REP_SQ == 0
+    LIST_IS_ONE(&SPIPE->sendq, &CTX->sqnode)
+#else
+    LIST_IS_TWO(&SPIPE->sendq, &C2->sqnode, &CTX->sqnode)
+#endif
+    ))
+__CPROVER_ensures((S_WAIT && g_hk < S_OLDLEN) ==> HDR(OLD(SM))[g_hk] == g_hb)
+/* first reply refused by the aio layer (which completes it itself): nothing queued; the reply state is consumed all the same */
+__CPROVER_ensures((S_WAIT && !g_aio_start_ok) ==> (WA_NONE_IF(g_wa == (void *) aio) && g_fin_calls == OLD(g_fin_calls) + 1 && CTX->saio == NULL && NODE_IDLE(&CTX->sqnode) && aio->a_msg == OLD(SM)
+    && S_NOSEND && g_start_calls == OLD(g_start_calls) + 1 && g_free_calls == OLD(g_free_calls)))
+#endif
+;
+#endif
 /* clang-format on */
 #endif
